@@ -941,11 +941,18 @@ theorem diff_rawLeaves (d : Diff) : rawLeaves d.node = [] := by
   cases old <;>
     simp [Diff.node, rawLeaves, rawLeavesL, rawLeavesL_append, apply_ite rawLeavesL, routeFilters_rawLeaves]
 
+theorem diff_nodes_namesOk (d : Diff) : namesOkL d.nodes = true := by
+  unfold Diff.nodes; split <;> simp [namesOkL, diff_namesOk]
+
+theorem diff_nodes_rawLeaves (d : Diff) : rawLeavesL d.nodes = [] := by
+  unfold Diff.nodes; split <;> simp [rawLeavesL, diff_rawLeaves]
+
 theorem updateTree_namesOk (u : Update) : namesOk (updateTree u) = true := by
-  cases u <;> simp (config := {decide := true}) [updateTree, namesOk, namesOkL, attrNamesOk, diff_namesOk]
+  cases u <;> simp (config := {decide := true}) [updateTree, namesOk, namesOkL, attrNamesOk, namesOkL_append,
+    diff_nodes_namesOk]
 
 theorem updateTree_rawLeaves (u : Update) : rawLeaves (updateTree u) = [] := by
-  cases u <;> simp [updateTree, rawLeaves, rawLeavesL, diff_rawLeaves]
+  cases u <;> simp [updateTree, rawLeaves, rawLeavesL, rawLeavesL_append, diff_nodes_rawLeaves]
 
 /-! ### the language of `escape` -/
 
